@@ -505,7 +505,12 @@ func (v *Verifier) assumeGlobalAxioms(c *Ctx, st *State, guard *Term) {
 			c.unsup = append(c.unsup, fmt.Sprintf("%s: axiom %s: %v", a.A.Pos, a.A.Name, err))
 			continue
 		}
-		c.sc.gaxioms = append(c.sc.gaxioms, tImp(guard, t).S)
+		ax := tImp(guard, t).S
+		if strings.HasPrefix(a.A.Name, "def-") {
+			// the definition of an opaque spec function matters only where the function is used
+			ax = "REQ:" + smtName("sf_"+strings.TrimPrefix(a.A.Name, "def-")) + "\x00" + ax
+		}
+		c.sc.gaxioms = append(c.sc.gaxioms, ax)
 	}
 }
 
@@ -770,7 +775,13 @@ func (v *Verifier) frameObligation(c *Ctx, fr *Frame, bc *BoundContract, s *Stat
 		if s.h[k].S == hi.init.S {
 			continue
 		}
-		parts = append(parts, tEq(s.h[k], hi.init))
+		if ix, _, ok := arrParts(hi.sort); ok && ix == SV {
+			// ghost maps over objects: what they say about objects created during the call is the callee's business
+			clk0 := c.keys["$clk"].init
+			parts = append(parts, mk(SBool, "(forall ((r V)) (! (=> (< (birth r) %s) (= (select %s r) (select %s r))) :pattern ((select %s r))))", clk0.S, s.h[k].S, hi.init.S, s.h[k].S))
+		} else {
+			parts = append(parts, tEq(s.h[k], hi.init))
+		}
 		names = append(names, k[2:])
 	}
 	if len(parts) == 0 {
